@@ -118,6 +118,7 @@ type Contract struct {
 	Uses           []string            // lemmas / axioms assumed while verifying this function
 	Dispatch       map[string][]string // interface type name -> allowed dynamic types (proved at each invoke)
 	Recovers       bool                // the function must call the builtin recover() directly (it is meant to run deferred)
+	CallsAfter     [][2]string         // structural: (A, B) every call of B is dominated by a call of A
 	CallsInEntry   []string            // structural: static calls that the entry block must contain
 	AlwaysSends    bool                // structural: every return is dominated by a blocking channel send of the function itself
 	StructuralOnly string              // reason why the body is not executed symbolically (only structural obligations are decided)
@@ -592,6 +593,12 @@ func (db *SpecDB) loadText(path, text, pkgHint string) error {
 					alts = append(alts, strings.TrimSpace(a))
 				}
 				cur.Dispatch[strings.TrimSpace(rest[:col])] = alts
+			case "calls-after":
+				// structural: `calls-after A B` — every call of B in the body is dominated by a call of A
+				// (names match static callees by suffix and interface methods by method name)
+				if f := strings.Fields(rest); len(f) == 2 {
+					cur.CallsAfter = append(cur.CallsAfter, [2]string{f[0], f[1]})
+				}
 			case "calls-in-entry":
 				// structural: the entry block of the body contains a static call of the named function
 				if f := strings.TrimSpace(rest); f != "" {
